@@ -55,31 +55,40 @@ Record state := mkC {
   loops : nat -> nat;
   wire : nat -> list packet;
   emitted : list (N * N);
-  delivered : list (nat * N)
+  delivered : list (nat * N);
+  since : nat -> nat        (* seconds since Connection.reader k last began a loop iteration *)
 }.
 
 Definition set_pc (s : state) (v : nat -> call_pc) : state :=
-  mkC v (reg s) (ch s) (next s) (status s) (broken s) (rq s) (loops s) (wire s) (emitted s) (delivered s).
+  mkC v (reg s) (ch s) (next s) (status s) (broken s) (rq s) (loops s) (wire s) (emitted s) (delivered s) (since s).
 Definition set_reg (s : state) (v : list (N * nat)) : state :=
-  mkC (pc s) v (ch s) (next s) (status s) (broken s) (rq s) (loops s) (wire s) (emitted s) (delivered s).
+  mkC (pc s) v (ch s) (next s) (status s) (broken s) (rq s) (loops s) (wire s) (emitted s) (delivered s) (since s).
 Definition set_ch (s : state) (v : nat -> option N) : state :=
-  mkC (pc s) (reg s) v (next s) (status s) (broken s) (rq s) (loops s) (wire s) (emitted s) (delivered s).
+  mkC (pc s) (reg s) v (next s) (status s) (broken s) (rq s) (loops s) (wire s) (emitted s) (delivered s) (since s).
 Definition set_next (s : state) (v : nat) : state :=
-  mkC (pc s) (reg s) (ch s) v (status s) (broken s) (rq s) (loops s) (wire s) (emitted s) (delivered s).
+  mkC (pc s) (reg s) (ch s) v (status s) (broken s) (rq s) (loops s) (wire s) (emitted s) (delivered s) (since s).
 Definition set_status (s : state) (v : nat -> bool) : state :=
-  mkC (pc s) (reg s) (ch s) (next s) v (broken s) (rq s) (loops s) (wire s) (emitted s) (delivered s).
+  mkC (pc s) (reg s) (ch s) (next s) v (broken s) (rq s) (loops s) (wire s) (emitted s) (delivered s) (since s).
 Definition set_broken (s : state) (v : nat -> bool) : state :=
-  mkC (pc s) (reg s) (ch s) (next s) (status s) v (rq s) (loops s) (wire s) (emitted s) (delivered s).
+  mkC (pc s) (reg s) (ch s) (next s) (status s) v (rq s) (loops s) (wire s) (emitted s) (delivered s) (since s).
 Definition set_rq (s : state) (v : nat -> nat) : state :=
-  mkC (pc s) (reg s) (ch s) (next s) (status s) (broken s) v (loops s) (wire s) (emitted s) (delivered s).
+  mkC (pc s) (reg s) (ch s) (next s) (status s) (broken s) v (loops s) (wire s) (emitted s) (delivered s) (since s).
 Definition set_loops (s : state) (v : nat -> nat) : state :=
-  mkC (pc s) (reg s) (ch s) (next s) (status s) (broken s) (rq s) v (wire s) (emitted s) (delivered s).
+  mkC (pc s) (reg s) (ch s) (next s) (status s) (broken s) (rq s) v (wire s) (emitted s) (delivered s) (since s).
 Definition set_wire (s : state) (v : nat -> list packet) : state :=
-  mkC (pc s) (reg s) (ch s) (next s) (status s) (broken s) (rq s) (loops s) v (emitted s) (delivered s).
+  mkC (pc s) (reg s) (ch s) (next s) (status s) (broken s) (rq s) (loops s) v (emitted s) (delivered s) (since s).
 Definition set_emitted (s : state) (v : list (N * N)) : state :=
-  mkC (pc s) (reg s) (ch s) (next s) (status s) (broken s) (rq s) (loops s) (wire s) v (delivered s).
+  mkC (pc s) (reg s) (ch s) (next s) (status s) (broken s) (rq s) (loops s) (wire s) v (delivered s) (since s).
 Definition set_delivered (s : state) (v : list (nat * N)) : state :=
-  mkC (pc s) (reg s) (ch s) (next s) (status s) (broken s) (rq s) (loops s) (wire s) (emitted s) v.
+  mkC (pc s) (reg s) (ch s) (next s) (status s) (broken s) (rq s) (loops s) (wire s) (emitted s) v (since s).
+
+Definition set_since (s : state) (v : nat -> nat) : state :=
+  mkC (pc s) (reg s) (ch s) (next s) (status s) (broken s) (rq s) (loops s) (wire s) (emitted s) (delivered s) v.
+
+(** reconnectTimeout = 10 s, in ticks of one second: Connection.reader's select
+    creates a fresh time.After(reconnectTimeout) in every loop iteration, i.e.
+    after every packet it receives, whatever its kind (pong and auth nonce included) *)
+Definition silence_ticks : nat := 10.
 
 Definition cupd {A} (f : nat -> A) (i : nat) (v : A) : nat -> A :=
   fun j => if Nat.eqb j i then v else f j.
@@ -105,6 +114,7 @@ Inductive label :=
 | LUnregister (i : nat)
 | LDrop (k : nat)                  (* the TCP connection k dies; packets in flight are lost *)
 | LPingFail (k : nat)              (* the ping's Send fails: go c.reconnect() *)
+| LTick (k : nat)                  (* one second passes for the reader of connection k *)
 | LSilence (k : nat)               (* reader: 10 s without a packet: c.reconnect() *)
 | LReconnectEnter (k : nat)        (* one reconnect() call runs its locked prologue *)
 | LReconnectDone (k : nat).        (* setupEncryptedConnection succeeded *)
@@ -158,7 +168,7 @@ Section Step.
         match wire s k with
         | [] => None
         | p :: rest =>
-            let s1 := set_wire s (cupd (wire s) k rest) in
+            let s1 := set_since (set_wire s (cupd (wire s) k rest)) (cupd (since s) k 0) in
             match p with
             | PPong | PJunk => Some s1
             | PMalformed id => Some (set_reg s1 (remove_id id (reg s)))
@@ -196,8 +206,10 @@ Section Step.
         else None
     | LPingFail k =>
         if status s k && broken s k then Some (set_rq s (cupd (rq s) k (S (rq s k)))) else None
+    | LTick k => Some (set_since s (cupd (since s) k (S (since s k))))
     | LSilence k =>
-        if status s k then Some (set_rq s (cupd (rq s) k (S (rq s k)))) else None
+        if status s k && Nat.leb silence_ticks (since s k)
+        then Some (set_rq s (cupd (rq s) k (S (rq s k)))) else None
     | LReconnectEnter k =>
         match rq s k with
         | O => None
@@ -213,9 +225,10 @@ Section Step.
     | LReconnectDone k =>
         match loops s k with
         | O => None
-        | S n => Some (set_loops (set_broken (set_status s (cupd (status s) k true))
-                                             (cupd (broken s) k false))
-                                 (cupd (loops s) k n))
+        | S n => Some (set_since (set_loops (set_broken (set_status s (cupd (status s) k true))
+                                                        (cupd (broken s) k false))
+                                            (cupd (loops s) k n))
+                                 (cupd (since s) k 0))     (* a new reader with a fresh timer *)
         end
     end.
 
@@ -233,4 +246,20 @@ End Step.
 (** a fresh client: every connection established, nothing registered *)
 Definition init_state : state :=
   mkC (fun _ => CInit) [] (fun _ => None) 0 (fun _ => true) (fun _ => false)
-      (fun _ => 0) (fun _ => 0) (fun _ => []) [] [].
+      (fun _ => 0) (fun _ => 0) (fun _ => []) [] [] (fun _ => 0).
+
+(** seconds since the reader of connection k last began a loop iteration, read
+    off a trace: a tick adds one, every packet the reader receives (of any kind)
+    and the start of a new reader reset it *)
+Definition tick_upd (k : nat) (l : label) (acc : nat) : nat :=
+  match l with
+  | LTick k' => if Nat.eqb k' k then S acc else acc
+  | LDeliver k' | LReconnectDone k' => if Nat.eqb k' k then 0 else acc
+  | _ => acc
+  end.
+
+Fixpoint ticks_since (k : nat) (ls : list label) (acc : nat) : nat :=
+  match ls with
+  | [] => acc
+  | l :: t => ticks_since k t (tick_upd k l acc)
+  end.
